@@ -431,6 +431,8 @@ func C20(c *Ctx) {
 	c20Extras(c, mer, ana, withHelpers)
 	c.R.Rule("C20-R9", "E3", "the terminal nodes reported are exactly the nodes without a branch (no branching, or an empty list of branches)", 1)
 	c20Terminal(c, "C20-R9", ana, withHelpers(ana))
+	c.R.Rule("C20-R10", "E5", "the names in the reported sets come from nodes and branches", 1)
+	c20SetsFromTheGraph(c, "C20-R10", withHelpers(ana))
 	c20OutputFiles(c)
 	// ---- R4 Analyze
 	loops := flow.Loops(ana)
